@@ -235,6 +235,11 @@ impl<T: WrappedKey> Occupied<T> for OccupiedEntry<'_, T> {
     type Error = Error;
 
     fn get(&self) -> Result<T, Self::Error> {
+        // Every read through this entry shares the descriptor's
+        // file offset, so always start from the beginning of
+        // the file. Otherwise a second `get` (or a `remove`
+        // after a `get`) starts at EOF and fails.
+        self.fd.rewind()?;
         Ok(cbor::from_reader(&self.fd)?)
     }
 
@@ -277,6 +282,12 @@ impl Exclusive {
 
     fn fstat(&self) -> io::Result<fs::Stat> {
         fs::fstat(&self.0)
+    }
+
+    /// Moves the file offset back to the start of the file.
+    fn rewind(&self) -> io::Result<()> {
+        fs::seek(&self.0, fs::SeekFrom::Start(0))?;
+        Ok(())
     }
 
     fn fsync(&self) -> io::Result<()> {
